@@ -7,7 +7,7 @@
 From ASModel Require Import Base Tokens Report Ast IR Expand.
 
 Definition field_span (f : field_name) : list span :=
-  match f with FIdent _ sp => [sp] | FIndex _ => [] end.
+  match f with FIdent _ sp => [sp] | FIndex _ sp => [sp] end.
 
 Definition own_spans (s : stmt) : list span :=
   match s with
